@@ -1,5 +1,5 @@
 #!/bin/sh
-# import round-2 mutants of property $1 from /tmp/wt2/$1/_out as seeded/<P>-n<k>
+# import mutants of property $1 from $SRC/$1/_out (default /tmp/wt2) as seeded/<P>-<SUFFIX><k> (default suffix n)
 p=$1
 /venv/bin/python - <<PY
 import shutil,os,json
@@ -7,10 +7,10 @@ src='${SRC:-/tmp/wt2}/$p/_out'
 for k in (1,2,3):
     d=f'{src}/m{k}.diff'
     if not os.path.exists(d) or os.path.getsize(d)==0: continue
-    dst=f'/verif/seeded/$p-n{k}'
+    dst=f'/verif/seeded/$p-${SUFFIX:-n}{k}'
     os.makedirs(dst,exist_ok=True)
     shutil.copy(d,dst+'/patch.diff'); shutil.copy(f'{src}/m{k}_demo.py',dst+'/demo.py')
     meta=json.load(open(f'{src}/m{k}_meta.json')) if os.path.exists(f'{src}/m{k}_meta.json') else {}
-    meta.setdefault('property','$p'); meta['origin']='independent sub-agent, round 2 (told only the property text and the summaries of round 1)'
+    meta.setdefault('property','$p'); meta['origin']='${ORIGIN:-independent sub-agent, round 2 (told only the property text and the summaries of round 1)}'
     json.dump(meta,open(dst+'/meta.json','w'),indent=1)
 PY
